@@ -190,7 +190,9 @@ def decEvent (j : Json) : Event :=
     let out := match j.getObjVal? "out" with
       | .ok (.arr #[.str id, v]) => some (id, decVal v)
       | _ => none
-    .stageChange (getStr j "step") prev out (getBool j "busy")
+    -- `"complete": true` = the callback was OnStepComplete (`newStage == nil`); its previous stage is a plain string there
+    if getBool j "complete" then .stepComplete (getStr j "step") (prev.getD "") out (getBool j "busy")
+    else .stageChange (getStr j "step") prev out (getBool j "busy")
   | "fail" => .stageFail (getStr j "step") (getStr j "stage")
   | "drain" => .drain
   | _ => .tick (getNat j "retries") (getBool j "busy")
